@@ -21,6 +21,10 @@ def observers(cap):
     for i in range(cap + 2):
         ops.append([GET, i])
         ops.append([COPY, i])
+    # far positions: an index narrowed to 32 bits would alias a live cell
+    for i in (2 ** 32, 2 ** 32 + 1, 2 ** 31, 2 ** 63, 2 ** 64 - 1):
+        ops.append([GET, i])
+        ops.append([COPY, i])
     return ops
 
 
@@ -87,7 +91,8 @@ def rand_history(rng, cap, n):
             else:
                 ops.append([FLUSH]); ln = 0
         elif r < 0.75:
-            i = rng.choice([0, ln - 1, ln, ln + 1, cap - 1, cap, rng.randrange(0, cap + 2), 18446744073709551615 if rng.random() < 0.05 else 1])
+            i = rng.choice([0, ln - 1, ln, ln + 1, cap - 1, cap, rng.randrange(0, cap + 2), 18446744073709551615 if rng.random() < 0.05 else 1,
+                            rng.choice([2 ** 32, 2 ** 32 + max(0, ln - 1), 2 ** 33 + 1, 2 ** 31, 2 ** 63, 2 ** 64 - 2]) if rng.random() < 0.3 else 0])
             ops.append([rng.choice((GET, COPY)), max(0, i)])
         else:
             ops.append([rng.choice((CAPACITY, SIZE, TOSTRING, COPYOLDEST, PEEKOLD, PEEKNEW, ITER, ISEMPTY, ISFULL, TOSTRING, ITER))])
@@ -109,7 +114,7 @@ def buffer_streams(seed, tier):
                     cases.append("(%d %d %d %s)" % (prof, kind, cap, observed_history_str(seq, cap, obs_str)))
     out.append(Stream("mutators^%d+observe-all" % L, "buffer", "buffer.check", cases,
                       "every sequence of %d operations from {push, push_force, pop, flush} (release profile: %d), capacities 1..4, both kinds; after every operation all observers run "
-                      "(capacity, size, to_string, copy_oldest, peek_oldest, peek_newest, iter, is_empty, is_full, get/get_mut(i) and copy(i) for i in 0..cap+1); covers all shorter sequences as prefixes"
+                      "(capacity, size, to_string, copy_oldest, peek_oldest, peek_newest, iter, is_empty, is_full, get/get_mut(i) and copy(i) for i in 0..cap+1 and at 2^31, 2^32, 2^32+1, 2^63, 2^64-1); covers all shorter sequences as prefixes"
                       % (L, L - 1 if tier == "quick" else L)))
     # 1b. the same with the DEFAULT value among the pushed values: every push pushes either 0 (= T::default(), the
     #     content of an empty cell) or a fresh non-default value, in every combination
